@@ -426,6 +426,8 @@ partial def loop (hin : IO.FS.Stream) (hout : IO.FS.Stream) (st : St) : IO Unit 
   if line.isEmpty then return ()
   let l := (line.dropEndWhile (fun c => c == '\n' || c == '\r')).toString
   let (st', out) := step st l
+  -- a Go panic unwinds the whole call: the harness reports the bare word
+  let out := if (out.splitOn "res=PANIC").length > 1 || (out.splitOn "res2=PANIC").length > 1 then "PANIC" else out
   hout.putStrLn out
   loop hin hout st'
 
